@@ -30,6 +30,8 @@ SLOTS = {'ABIN', 'ACTA', 'FMAP', 'XNPD', 'WPDB', 'WIGL', 'SWAT', 'STIR', 'SPEC',
 SLOT_NAME = {'L.S.': 'cycles', 'CGLS': 'cycles'}
 # the dispatch builds no object for the bare form of these (the instruction is then "not given" as a whole)
 BARE_NO_OBJECT = {'SPEC', 'TWST'}
+# restraints that take atom names, hence a residue suffix on the codeword (_n, _CLASS, _*)
+SUFFIXABLE = {'DFIX', 'DANG', 'SADI', 'SAME', 'FLAT', 'CHIV', 'DELU', 'SIMU', 'RIGU', 'ISOR', 'NCSY', 'EADP', 'EXYZ'}
 RESTRAINTS = {'DFIX', 'DANG', 'SADI', 'SAME', 'FLAT', 'CHIV', 'DELU', 'SIMU', 'RIGU', 'ISOR', 'NCSY', 'BUMP'}
 NAMES = {'DFIX': ['C1', 'C2'], 'DANG': ['C1', 'C3'], 'SADI': ['C1', 'C2', 'C3', 'C4'], 'SAME': ['C1', 'C2', 'C3'],
          'FLAT': ['C1', 'C2', 'C3', 'C4'], 'CHIV': ['C2'], 'DELU': ['C1', 'C2'], 'SIMU': ['C1', 'C2', 'C3'],
@@ -136,6 +138,25 @@ def gen_values(rng, kw, sp, n):
         seen |= set(float(x) for x in new)
         vals += new
     return vals[:n]
+
+
+def gen_residues(rng, kind):
+    """a residue environment (RESI class number, in file order; one class occurs twice, one residue may have no class)
+    and a codeword suffix of the wanted kind that addresses existing residues"""
+    classes = rng.sample(['CCF3', 'TOL', 'THF2', 'Et2O', 'A1B'], 2)
+    nums = rng.sample(range(1, 40), 4)
+    resi = [[classes[0], nums[0]], [classes[1], nums[1]], [classes[0], nums[2]]]
+    if rng.random() < 0.5:
+        resi.append(['', nums[3]])
+    rng.shuffle(resi)
+    if kind == 'num':
+        sfx = f'_{rng.choice(resi)[1]}'
+    elif kind == 'cls':
+        c = rng.choice(classes)
+        sfx = '_' + rng.choice([c, c.upper(), c.lower()])
+    else:
+        sfx = '_*'
+    return resi, sfx
 
 
 def gen_defs(rng, k):
@@ -263,6 +284,13 @@ def render(case):
         atoms = atoms[:2] + [ins, atoms[2], 'AFIX 0', atoms[3]]
     if kw == 'PART':
         atoms = atoms[:2] + [ins, atoms[2], 'PART 0', atoms[3]]
+    # residues the codeword suffix can address: RESI class number, two atoms each, closed by RESI 0
+    for i, (cls, num) in enumerate(case.get('resi', [])):
+        atoms.append(f'RESI {cls} {num}' if cls else f'RESI {num}')
+        atoms.append(f'C1    1    0.{300 + 7 * i:03d}000    0.200000    0.300000    11.00000    0.03000')
+        atoms.append(f'C2    1    0.{300 + 7 * i:03d}000    0.350000    0.400000    11.00000    0.03000')
+    if case.get('resi'):
+        atoms.append('RESI 0')
     tail = [ins if kw == 'HKLF' else 'HKLF 4', 'END']
     lines = head + body + atoms + tail
     return '\n'.join(lines) + '\n', lines.index(ins)
@@ -358,8 +386,25 @@ def show(v):
     return v
 
 
+def suffix_struct(sfx):
+    """'_2' -> 2, '_CCF3'/'_ccf3' -> 'CCF3', '_*' -> '*', '' -> None  (SHELXL is case-insensitive)"""
+    if not sfx:
+        return None
+    t = sfx[1:]
+    return int(t) if t.isdigit() else t.upper()
+
+
+def suffix_kind(sfx):
+    st = suffix_struct(sfx)
+    return 'none' if st is None else 'num' if isinstance(st, int) else 'star' if st == '*' else 'cls'
+
+
 def req_attrs(case):
-    return dict(p='C16', op='attrs', kw=case['kw'], ps=case['ps'], defs=case.get('defs'))
+    lex = case.get('lex') or {}
+    return dict(p='C16', op='attrs', kw=case['kw'], ps=case['ps'], defs=case.get('defs'),
+                codeword=kw_case(case['kw'], lex.get('kw', 'upper')) + case.get('suffix', ''),
+                suffix=suffix_struct(case.get('suffix', '')),
+                resi=[[(c or '').upper(), n] for c, n in case.get('resi', [])])
 
 
 def denote(sp, nums):
@@ -414,6 +459,15 @@ def same_denotation(a, b):
 # ------------------------------------------------------------------------------------------------
 # evaluation
 
+def cfail(ctx, sig, what, payload, kind='property'):
+    """ctx.fail, at most three times per signature (one replay per signature is written anyway; a broken tree must not
+    spend the failure quota of the run on thousands of repeats of one signature before the other streams are reached)"""
+    seen = ctx.__dict__.setdefault('_c16_seen', {})
+    seen[sig] = seen.get(sig, 0) + 1
+    if seen[sig] <= 3:
+        ctx.fail(sig, what, payload, kind)
+
+
 def evaluate(ctx, cases, stream=None):
     syn = syntax(ctx)
     by = {}
@@ -430,7 +484,19 @@ def evaluate(ctx, cases, stream=None):
         eval_wght(ctx, syn, by['wght'])
 
 
-def impl_meets(case, r, attrs) -> bool:
+def residue_obs(obj):
+    """residue class and resolved residue numbers of a restraint (numbers sorted: they may come out of a dict)"""
+    try:
+        return dict(cls=str(obj.residue_class).upper(), nums=sorted(int(x) for x in obj.residue_number))
+    except Exception as e:
+        return dict(error=type(e).__name__)
+
+
+def residue_want(rr):
+    return dict(cls=rr['cls'].upper(), nums=sorted(rr['nums']))
+
+
+def impl_meets(case, r, attrs, residues=True) -> bool:
     """implementation vs spec for one case, verdict only (used to attribute a failure to a lexical dimension)"""
     try:
         shx, obj, reached = read_obj(case)
@@ -442,6 +508,8 @@ def impl_meets(case, r, attrs) -> bool:
     if not all(meets(got[a], r['spec'][a]) for a in attrs):
         return False
     if case.get('names') and hasattr(obj, 'atoms') and list(obj.atoms) != list(case['names']):
+        return False
+    if residues and case['kw'] in SUFFIXABLE and residue_obs(obj) != residue_want(r['spec_res']):
         return False
     return True
 
@@ -494,11 +562,16 @@ def eval_attrs(ctx, syn, cases):
                 red = only_case if bc and not bs else only_spell if bs and not bc else case
             else:
                 red = canon
+        if red.get('suffix') and any(k == 'property' for _, _, _, k in pending) and not suffix.startswith('|lex'):
+            # does the same line without the residue suffix meet the spec? then the suffix is to blame
+            nosfx = {k: v for k, v in red.items() if k not in ('suffix', 'resi')}
+            if impl_meets(nosfx, r, attrs, residues=False):
+                suffix += '|sfx=' + suffix_kind(red['suffix'])
         for sig, what, payload, kind in pending:
             if kind == 'property' and not sig.startswith('C16|slot'):
                 payload = dict(payload, case=dict(red, stream='attrs'))
                 sig += suffix
-            ctx.fail(sig, what, payload, kind)
+            cfail(ctx, sig, what, payload, kind)
         pending.clear()
 
     prev = None
@@ -519,6 +592,7 @@ def eval_attrs(ctx, syn, cases):
         ctx.count(['attrs', case], nontrivial=(len(sp['params']) > 1 or case.get('defs') is not None or n > 0),
                   sample=dict(stream='attrs', line=line_of(case), defs=(defs_line(case) if case.get('defs') is not None else None)),
                   tags=[f'kw={kw}', f'form={n}', dtag, 'table' if r['table'] else 'residual', 'case=' + lex.get('kw', 'upper')] +
+                       (['sfx=' + suffix_kind(case.get('suffix', ''))] if kw in SUFFIXABLE else []) +
                        sorted({'spell=' + st for st in list(lex.get('spell', [])) + list(lex.get('defs_spell', []))}))
         payload = dict(case=dict(case, stream='attrs'), stream='attrs', line=line_of(case), expected=show(r['spec']), model=show(r['model']))
         if not r['form_ok']:
@@ -565,6 +639,17 @@ def eval_attrs(ctx, syn, cases):
         if case.get('names') and hasattr(obj, 'atoms'):
             if list(obj.atoms) != list(case['names']):
                 fail(f'{base}|atoms', f'`{line_of(case)}`: atoms {obj.atoms} are not the names written {case["names"]}', payload)
+        # residue class and resolved residue numbers implied by the codeword suffix
+        if kw in SUFFIXABLE:
+            ro, want = residue_obs(obj), residue_want(r['spec_res'])
+            payload['actual_residue'], payload['expected_residue'] = ro, want
+            sk = suffix_kind(case.get('suffix', ''))
+            if ro != want:
+                part = 'residue_class' if ro.get('cls') != want['cls'] else 'residue_number'
+                fail(f'{base}|{part}|sfx={sk}', f'`{line_of(case)}` with residues {case.get("resi", [])}: residue class/numbers {ro}, '
+                                                f'the suffix addresses {want}', payload)
+            elif ro != residue_want(r['model_res']):
+                fail(f'{base}|model|residue|sfx={sk}', f'`{line_of(case)}`: residues {ro}, the model says {r["model_res"]}', payload, kind='correspondence')
         # slot: shx.<kw> holds this object
         slot = SLOT_NAME.get(kw, kw.lower() if kw in SLOTS else None)
         if slot is not None and getattr(shx, slot, None) is not obj:
@@ -604,10 +689,17 @@ def eval_set(ctx, syn, cases):
             payload = dict(case=dict({k: v for k, v in case.items() if k not in ('ps2', 'lex2', 'steps')}, steps=[x for x, _ in steps[:si + 1]], stream='set'),
                            stream='set', history=hist, set=new_line, expected=show(r['spec']))
             try:
+                if case.get('touch_lists'):
+                    # edit list-valued attributes IN PLACE before the next text is set: a default list shared between
+                    # objects (or with the class) would now be reported, by this and by every later object, as changed
+                    for a in attrs:
+                        v = getattr(obj, a, None)
+                        if isinstance(v, list) and v and all(isinstance(x, (int, float)) and not isinstance(x, bool) for x in v):
+                            v[0] = v[0] + 0.125
                 obj.set(new_line)
                 text = str(obj)
             except Exception as e:
-                ctx.fail(f'C16|set|kw={kw}|raise', f'{cls}.set({new_line!r}) after {hist} raises {type(e).__name__}', dict(payload, actual=type(e).__name__))
+                cfail(ctx, f'C16|set|kw={kw}|raise', f'{cls}.set({new_line!r}) after {hist} raises {type(e).__name__}', dict(payload, actual=type(e).__name__))
                 break
             got = dump_attrs(obj, attrs)
             payload['actual'] = dict(attrs=got, text=text)
@@ -616,15 +708,30 @@ def eval_set(ctx, syn, cases):
                 if not meets(got[a], r['spec'][a]):
                     sv = r['spec'][a]
                     how = 'given' if 'given' in sv else 'omitted'
-                    ctx.fail(f'C16|set|kw={kw}|attr={a}|{how}', f'{hist} then {cls}.set({new_line!r}): {a} is {got[a]}, the syntax says {how} {show(sv[how])}', payload)
+                    cfail(ctx, f'C16|set|kw={kw}|attr={a}|{how}', f'{hist} then {cls}.set({new_line!r}): {a} is {got[a]}, the syntax says {how} {show(sv[how])}', payload)
                     bad = True
             toks = tokens_of(text)
             want = denote(sp, st['ps'])
             if [t.upper() for t in text.split()[:1]] != [kw] or toks is None or len(toks) not in sp['forms'] or not same_denotation(denote(sp, toks), want):
-                ctx.fail(f'C16|set|kw={kw}|text', f'{hist} then {cls}.set({new_line!r}): the written text is {text!r}, which does not denote {want}', payload)
+                cfail(ctx, f'C16|set|kw={kw}|text', f'{hist} then {cls}.set({new_line!r}): the written text is {text!r}, which does not denote {want}', payload)
                 bad = True
             if bad:
                 break
+        else:
+            if case.get('touch_lists') and steps:
+                # a NEW object parsed after that history, same text as the last step: same values
+                st, r = steps[-1]
+                _, fresh, _ = read_obj(dict(kw=kw, ps=st['ps'], lex=st.get('lex')))
+                if fresh is not None and type(fresh).__name__ == cls:
+                    got = dump_attrs(fresh, attrs)
+                    for a in attrs:
+                        if not meets(got[a], r['spec'][a]):
+                            sv = r['spec'][a]
+                            how = 'given' if 'given' in sv else 'omitted'
+                            cfail(ctx, f'C16|set|kw={kw}|attr={a}|{how}|fresh-object',
+                                  f'{[line_of(case)] + lines} on one object (list attributes edited in place), then a new file with `{lines[-1]}`: '
+                                  f'{a} is {got[a]}, the syntax says {how} {show(sv[how])}',
+                                  dict(case=dict(case, stream='set'), stream='set', history=[line_of(case)] + lines, expected=show(r['spec']), actual=got))
 
 
 def eval_ls(ctx, syn, cases):
@@ -646,16 +753,16 @@ def eval_ls(ctx, syn, cases):
             text = str(obj)
             num = obj.number
         except Exception as e:
-            ctx.fail(f'C16|ls|{case["via"]}|raise', f'`{line_of(case)}`: setting the cycle number raises {type(e).__name__}', dict(payload, actual=type(e).__name__))
+            cfail(ctx, f'C16|ls|{case["via"]}|raise', f'`{line_of(case)}`: setting the cycle number raises {type(e).__name__}', dict(payload, actual=type(e).__name__))
             continue
         payload['actual'] = dict(text=text, number=num)
         toks = tokens_of(text)
         form = f'form={len(case["ps"])}|' + ('nrf=0' if case['ps'][1:2] == [0] else 'nrf!=0')
         den = None if toks is None or not 1 <= len(toks) <= 3 else [int(x) for x in (toks + [0, 0])[:3]]
         if [t.upper() for t in text.split()[:1]] != [kw] or den != r['spec'] or num != case['n']:
-            ctx.fail(f'C16|ls|{form}|text', f'`{line_of(case)}` then number = {case["n"]}: written text {text!r} denotes {den}, expected {r["spec"]}', payload)
+            cfail(ctx, f'C16|ls|{form}|text', f'`{line_of(case)}` then number = {case["n"]}: written text {text!r} denotes {den}, expected {r["spec"]}', payload)
         elif toks is not None and [int(x) for x in toks] != r['tokens']:
-            ctx.fail(f'C16|ls|{form}|model', f'`{line_of(case)}` then number = {case["n"]}: text {text!r}, model prints {r["tokens"]}', payload, kind='correspondence')
+            cfail(ctx, f'C16|ls|{form}|model', f'`{line_of(case)}` then number = {case["n"]}: text {text!r}, model prints {r["tokens"]}', payload, kind='correspondence')
 
 
 def eval_wght(ctx, syn, cases):
@@ -677,7 +784,7 @@ def eval_wght(ctx, syn, cases):
                   tags=['wght', f'cur={len(case["cur"])}', f'sug={len(case["sug"])}'] + (['cdef-sum=default'] if special else []))
         payload = dict(case=dict(case, stream='wght'), stream='wght', expected=show(r['spec']), model=show(r['tokens']))
         if shx.wght is None or shx.wght_suggested is None:
-            ctx.fail('C16|wght|noobject', f'WGHT before and after END: wght={shx.wght!r} suggested={shx.wght_suggested!r}', dict(payload, actual=None))
+            cfail(ctx, 'C16|wght|noobject', f'WGHT before and after END: wght={shx.wght!r} suggested={shx.wght_suggested!r}', dict(payload, actual=None))
             continue
         shx.update_weight()
         out = str(shx.wght)
@@ -686,9 +793,9 @@ def eval_wght(ctx, syn, cases):
         want = dict(zip('abcdef', [float(x) for x in r['spec']]))
         sig = 'C16|wght|cdef-sum=default' if special else 'C16|wght|text'
         if toks is None or len(toks) not in sp['forms'] or not same_denotation(denote(sp, toks), want):
-            ctx.fail(sig, f'update_weight() with suggestion {case["sug"]}: written text {out!r} does not denote {want}', payload)
+            cfail(ctx, sig, f'update_weight() with suggestion {case["sug"]}: written text {out!r} does not denote {want}', payload)
         elif [float(x) for x in r['tokens']] != toks and not all(core.close(x, y) for x, y in zip(toks, r['tokens'])):
-            ctx.fail('C16|wght|model', f'update_weight(): text {out!r}, model prints {show(r["tokens"])}', payload, kind='correspondence')
+            cfail(ctx, 'C16|wght|model', f'update_weight(): text {out!r}, model prints {show(r["tokens"])}', payload, kind='correspondence')
 
 
 # ------------------------------------------------------------------------------------------------
@@ -696,13 +803,15 @@ def eval_wght(ctx, syn, cases):
 def run(ctx):
     syn = syntax(ctx)
     ctx.rule = ('every legal form (prefix of the parameter list) of every keyword of the syntax table, values pairwise distinct and '
-                'different from every default, restraints additionally after each of the six DEFS forms; distinct by (keyword, values, '
+                'different from every default, restraints additionally after each of the six DEFS forms and with each kind of residue suffix on the codeword '
+                '(_n, _CLASS in either case, _*) inside a file with several residues (one class twice, one residue without class); distinct by (keyword, values, '
                 'DEFS values, keyword case, number spelling); each form in canonical spelling, in lower case with exponent notation and in mixed case with '
                 'leading-dot / plus / trailing-dot / leading-zero spellings (DEFS line included); non-trivial = the line has a parameter, or an omitted one with a documented default, or follows a DEFS. '
                 'Setter streams: histories of 1-3 Command.set calls on one object between long and short forms, LSCycles.number/set_refine_cycles on every form incl. nrf = 0, '
                 'update_weight with 2- and 6-parameter schemes')
     ctx.assumptions = ['integer-kind parameters (mn, N, npeaks, nls …) are written as integers (hypothesis intsOK of table_attr_spec)',
                        'numbers are decimals in any free-format spelling (exponent, leading ./+, trailing ., leading 0); no free-variable codes in instruction parameters',
+                       'residue numbers are pairwise different and an addressed class has at least one residue (hypotheses of residue_spec)',
                        'keyword case and number spelling are lexical: compared implementation vs spec only (the Lean model starts from the numeric values)',
                        'objects are observed where they replace their line in _reslist; AFIX/PART are followed by an atom and AFIX 0/PART 0']
     # broken table obligations name their failing form (DESIGN 4, step 6b): those forms are generated below in any case
@@ -719,16 +828,24 @@ def run(ctx):
             if kw in RESTRAINTS:
                 dforms += list(range(6)) if (ctx.tier == 'thorough' or ctx.escalated) else [0, ctx.rng.randint(1, 4), 5]
             for k in dforms:
-                for rep in range(reps):
+                thorough = ctx.tier == 'thorough' or ctx.escalated
+                nrep = reps + (3 if kw in SUFFIXABLE else 0)
+                for rep in range(nrep):
                     ps = gen_values(ctx.rng, kw, sp, n)
                     c = dict(kw=kw, ps=ps, stream='attrs')
                     if k is not None:
                         c['defs'] = gen_defs(ctx.rng, k)
                     if kw in NAMES:
                         c['names'] = NAMES[kw]
-                    lex = make_lex(ctx.rng, rep, ps, c.get('defs'))
+                    # quick: repetitions 0-2 are the lexical styles without suffix, 3-5 the three suffix kinds in canonical
+                    # spelling; thorough: every repetition draws style and suffix independently
+                    lex = make_lex(ctx.rng, rep if rep < reps else 0, ps, c.get('defs'))
                     if lex:
                         c['lex'] = lex
+                    if kw in SUFFIXABLE:
+                        kind = ['num', 'cls', 'star'][rep - reps] if rep >= reps else (ctx.rng.choice(['none', 'num', 'cls', 'star']) if thorough else 'none')
+                        if kind != 'none':
+                            c['resi'], c['suffix'] = gen_residues(ctx.rng, kind)
                     cases.append(c)
     # setters (Restraint classes have no set())
     settable = [kw for kw, sp in syn.items() if sp['finite'] and kw not in RESTRAINTS and kw not in ('EADP', 'EXYZ', 'DEFS', 'CELL', 'ZERR', 'LATT', 'L.S.', 'CGLS', 'AFIX', 'PART')]
@@ -744,6 +861,12 @@ def run(ctx):
             while len(seq) < nsteps:
                 seq.append(ctx.rng.choice(forms))
             c = dict(kw=kw, ps=gen_values(ctx.rng, kw, sp, n0), stream='set', steps=[])
+            if any(p['width'] > 1 for p in sp['params']):
+                # list-valued parameters (matrices, dx dy dz): every second history starts from the form that omits them,
+                # edits the list in place and sets short forms again
+                c['touch_lists'] = True
+                if rep % 2 == 0:
+                    c['ps'] = gen_values(ctx.rng, kw, sp, min(forms))
             l0 = make_lex(ctx.rng, (rep + 1) % 4, c['ps'])
             if l0:
                 c['lex'] = l0
@@ -775,5 +898,7 @@ def run(ctx):
         cases.append(c)
     # the one point the WGHT printer's shortcut excludes (hypothesis of wght_roundtrip): c+d+e+f equal to the default sum
     cases.append(dict(cur=[0.05, 0.7], sug=[0.06, 0.8, 0.0, 0.0, 0.1, 0.23333], stream='wght'))
+    # the (few) history cases first, then the bulk of the attribute cases
+    cases.sort(key=lambda c: 0 if c.get('stream') != 'attrs' else 1)
     for i in range(0, len(cases), 400):
         evaluate(ctx, cases[i:i + 400])
